@@ -13,11 +13,11 @@ PLANS = {
     "C01": dict(
         quick=dict(mc=["core2"], gens=[dict(maxlog=2, num=60, depth=24, lean=True, focus="commit")],
                    per_beh=3, fs=[1, 3, 25, 60], vts=["tiny", "edge", "ovf", "empty", "big", "mixed", "mixed2"],
-                   embs=api.EMBEDDINGS_QUICK, forced=[("scatter", "mixed", 60)]),
+                   embs=api.EMBEDDINGS_QUICK, forced=[("scatter", "mixed", 60)], clusters=6),
         thorough=dict(mc=["core", "core2"], gens=[dict(maxlog=2, num=600, depth=30, lean=True, focus="commit"),
                                                   dict(maxlog=3, num=300, depth=30, lean=False, focus="commit")],
                       per_beh=4, fs=[1, 3, 25, 60, 400], vts=["tiny", "edge", "ovf", "empty", "big", "huge", "mixed", "mixed2"],
-                      embs=api.EMBEDDINGS_ALL, forced=[("scatter", "mixed", 60), ("scatter", "mixed2", 200)])),
+                      embs=api.EMBEDDINGS_ALL, forced=[("scatter", "mixed", 60), ("scatter", "mixed2", 200)], clusters=40)),
     "C02": dict(
         quick=dict(mc=["core2"], gens=[dict(maxlog=2, num=60, depth=24, lean=True, focus="commit"),
                                        dict(maxlog=2, num=500, depth=28, lean=True, focus="overlay", top=40, templates=True)],
@@ -104,7 +104,7 @@ def run_plan(pid, tier, seed, extra_cov=None, t0=None):
     # 1. design level: TLC on NomtApi
     states = trans = 0
     mc_summ = []
-    for name in plan["mc"]:
+    for name in ([] if os.environ.get("VERIF_DEBUG_SKIP_MC") else plan["mc"]):
         r = api.mc(name, pid)
         states += r["states"]
         trans += r["transitions"]
@@ -215,6 +215,42 @@ def run_plan(pid, tier, seed, extra_cov=None, t0=None):
                     script_by_run[run] = tsc
                     twin_of[run - 1] = run
                     twin_prop[run - 1] = tprop
+    if plan.get("clusters"):
+        # large groups under long shared key prefixes that are not byte aligned: the value tree's branch nodes are
+        # rebuilt with prefix lengths far apart (one group deleted, its neighbour rewritten with another size class)
+        consts = consts_by_class.get("ml2_rb1") or api.gen_constants(maxlog=2)
+        consts_by_class.setdefault("ml2_rb1", consts)
+        keys = sorted(consts["Keys"])
+        NCH = {k: "NoCh" for k in keys}
+        for ci in range(plan["clusters"]):
+            beh = []
+            def commit(w):
+                beh.extend([dict(a="Begin", s=1, chain=[], res="Ok"), dict(a="Finish", s=1, f=1, w=dict(NCH, **w)),
+                            dict(a=rng.choice(["Commit", "TryCommit"]), f=1, res="Ok")])
+            if ci % 2 == 0:
+                # the family that exposed the branch-node separator corruption (push_chunk with prefix lengths
+                # more than 57 bits apart): the lowest group is deleted while a higher one moves from inline to
+                # overflow values, 400 members each, 127 shared bits
+                a, b = keys[0], rng.choice(keys[1:])
+                commit({a: "v2", b: "v1"})
+                commit({a: "Nil", b: "v2"})
+                store, conc = api.concretise(beh, consts, rng, f=400, emb="deep(127)", vt="edge", store=dict(commit_concurrency=1))
+            else:
+                a, b, c = rng.sample(keys, 3)
+                commit({a: "v2", b: "v1"})
+                commit({a: "Nil", b: "v2"})
+                commit({c: "v1", b: "Nil"})
+                commit({a: "v1", c: "v2"})
+                store, conc = api.concretise(beh, consts, rng, f=rng.choice([200, 300, 400]),
+                                             emb=rng.choice(["deep(127)", "deep(125)", "deep(63)", "deep(200)", "lopsided(127)", "lopsided(60)"]),
+                                             vt=rng.choice(["edge", "edge", "ovf"]), store=dict(commit_concurrency=rng.choice([1, 2])))
+            run += 1
+            sc = api.make_script(run, beh, store, conc)
+            sc["decode"] = True
+            scripts[run] = sc
+            classes[run] = "ml2_rb1"
+            script_by_run[run] = sc
+            distinct.add(C.sha([beh, store, conc]))
     cycle_runs = []
     if plan.get("cycles"):
         # fill / overwrite-with-another-size-class / empty cycles (legal NomtApi behaviours; ApiTrace validates them too)
@@ -240,6 +276,15 @@ def run_plan(pid, tier, seed, extra_cov=None, t0=None):
             script_by_run[run] = sc
             cycle_runs.append(run)
             distinct.add(C.sha([beh, store, conc]))
+    if os.environ.get("VERIF_DEBUG_ONLY_RUNS"):
+        # debugging aid: regenerate the plan deterministically, keep only the named runs (and their twins)
+        only = {int(x) for x in os.environ["VERIF_DEBUG_ONLY_RUNS"].split(",")}
+        only |= {twin_of[r] for r in only if r in twin_of}
+        scripts = {r: sc for r, sc in scripts.items() if r in only}
+        if os.environ.get("VERIF_DEBUG_DUMP"):
+            with open(os.environ["VERIF_DEBUG_DUMP"], "w") as f:
+                for sc in scripts.values():
+                    f.write(json.dumps(sc) + "\n")
     C.log("[%s] replaying %d scripts (%d behaviours) against the real store" % (pid, len(scripts), nbeh))
     # 4. replay
     runs, hangs = api.replay(list(scripts.values()), pid)
@@ -249,7 +294,7 @@ def run_plan(pid, tier, seed, extra_cov=None, t0=None):
         if sig:
             known.append(sig)
         else:
-            p = C.write_replay(pid, "hang-%d" % len(violations), dict(kind="hang", what=h))
+            p = C.write_replay(pid, "hang-%d" % len(violations), C.hang_payload(h, script_by_run))
             violations.append(dict(prop=pid, replay=p, what="call did not return: " + h[:200]))
     # 5. validate
     accepted_total = 0
